@@ -15,11 +15,21 @@ import (
 
 type VNil struct{}
 
+type recDep struct {
+	name string
+	sort *Sort
+	pidx int // >= 0: only the row of that parameter's object (slice obj / map ref) is read; -1: whole heap
+}
+
 type recInfo struct {
-	deps      []string
-	depSorts  map[string]*Sort
+	deps      []recDep
 	computing bool
 	ret       *Sort
+}
+
+type rowRec struct {
+	sort *Sort
+	obj  *Term
 }
 
 type specCtx struct {
@@ -36,6 +46,7 @@ type specCtx struct {
 	oldAlloc *Term
 	bound    map[string]bool
 	record   map[string]*Sort
+	recRows  map[string]rowRec // name|objkey -> row access (recording mode)
 	noUnfold bool
 	results  []Val
 	goal     bool                // the expression is being proved (not assumed): no trigger rebasing, one-directional byte equalities
@@ -75,6 +86,19 @@ func (c *specCtx) heap(name string, s *Sort) *Term {
 	return Var(name+"!0", s)
 }
 
+// heapRow reads one object's row of a two-level heap; in recording mode only the row is a dependency.
+func (c *specCtx) heapRow(name string, s *Sort, obj *Term) *Term {
+	if c.record != nil && c.recRows != nil {
+		c.recRows[name+"|"+obj.Key()] = rowRec{s, obj}
+		save := c.record
+		c.record = nil
+		h := c.heap(name, s)
+		c.record = save
+		return Select(h, obj)
+	}
+	return Select(c.heap(name, s), obj)
+}
+
 func (c *specCtx) loadLoc(l *Loc) Val {
 	switch l.Kind {
 	case LCell, LGlobal:
@@ -95,7 +119,7 @@ func (c *specCtx) loadLoc(l *Loc) Val {
 		ts := make([]*Term, len(ls))
 		c.e.ensureWF(c.st, l.Base, true)
 		for i, lf := range ls {
-			ts[i] = Select(Select(c.heap(elemHeapName(l.Base, prefix+lf.path), heapSort(lf.sort, true)), l.Obj), l.Idx)
+			ts[i] = Select(c.heapRow(elemHeapName(l.Base, prefix+lf.path), heapSort(lf.sort, true), l.Obj), l.Idx)
 		}
 		v, _ := Unflatten(t, ts)
 		return v
@@ -278,6 +302,11 @@ func (c *specCtx) eval(x Expr) Val {
 		c.fail("unknown identifier %q", n.Name)
 	case *ESel:
 		if id, ok := n.X.(*EIdent); ok {
+			if wt, ok := c.st.witnessOf[id.Name+"."+n.Name]; ok {
+				if _, isVar := c.env[id.Name]; !isVar {
+					return VInt{wt} // witness of the most recent call to that callee on this path
+				}
+			}
 			if _, isVar := c.env[id.Name]; !isVar {
 				if _, isLocal := c.lookupLocal(id.Name); !isLocal {
 					if p := c.importedPkg(id.Name); p != nil {
@@ -299,7 +328,7 @@ func (c *specCtx) eval(x Expr) Val {
 			return c.loadLoc(&Loc{Kind: LElem, Base: b.Elem, Obj: b.Obj, Idx: Add(b.Off, i)})
 		case VString:
 			i := c.evalInt(n.I)
-			return VInt{Select(Select(c.heap(strHeap, HeapI), b.Obj), Add(b.Off, i))}
+			return VInt{Select(c.heapRow(strHeap, HeapI, b.Obj), Add(b.Off, i))}
 		case VMap:
 			v, _ := c.mapGet(b, c.eval(n.I))
 			return v
@@ -405,6 +434,29 @@ func (c *specCtx) eval(x Expr) Val {
 			return VBool{Forall(bvs, pats, body)}
 		}
 		return VBool{Exists(bvs, body)}
+	case *ELit:
+		t, err := c.e.resolveType(c.pkg, n.Type)
+		if err != nil {
+			c.fail("composite literal: %v", err)
+		}
+		st, ok := under(t).(*types.Struct)
+		if !ok {
+			c.fail("composite literal of non-struct %s", n.Type)
+		}
+		zv := ZeroVal(t).(VStruct)
+		fs := append([]Val(nil), zv.F...)
+		for i, fn := range n.Names {
+			idx, _, ok := fieldIndex(t, fn)
+			if !ok {
+				c.fail("no field %s in %s", fn, n.Type)
+			}
+			v := c.eval(n.Values[i])
+			if _, isNil := v.(VNil); isNil {
+				v = ZeroVal(st.Field(idx).Type())
+			}
+			fs[idx] = v
+		}
+		return VStruct{T: t, F: fs}
 	case *ELet:
 		sub := c.sub()
 		sub.env[n.Name] = c.eval(n.Val)
@@ -457,11 +509,11 @@ func (c *specCtx) mapGet(m VMap, key Val) (Val, *Term) {
 	}
 	kt := keyTerm(key)
 	pn, vns := mapHeapNames(m.K, m.V)
-	pres := Select(Select(c.heap(pn, HeapB), m.Ref), kt)
+	pres := Select(c.heapRow(pn, HeapB, m.Ref), kt)
 	ls := leavesOf(m.V)
 	ts := make([]*Term, len(ls))
 	for i, l := range ls {
-		ts[i] = Select(Select(c.heap(vns[i], heapSort(l.sort, true)), m.Ref), kt)
+		ts[i] = Select(c.heapRow(vns[i], heapSort(l.sort, true), m.Ref), kt)
 	}
 	v, _ := Unflatten(m.V, ts)
 	return iteVal(pres, v, ZeroVal(m.V)), pres
@@ -662,7 +714,7 @@ func (c *specCtx) evalCall(n *ECall) Val {
 	case "old":
 		sub := c.sub()
 		sub.heaps = c.oldHeaps
-		sub.fr = nil
+		// old() affects the heap and parameters (entry values); locals keep their current values
 		if c.oldEnv != nil {
 			for k, v := range c.oldEnv {
 				sub.env[k] = v
@@ -702,6 +754,13 @@ func (c *specCtx) evalCall(n *ECall) Val {
 			c.fail("disjoint needs two slices")
 		}
 		return VBool{Or(Ne(a.Obj, b.Obj), Le(Add(a.Off, a.Len), b.Off), Le(Add(b.Off, b.Len), a.Off), Eq(a.Len, Zero), Eq(b.Len, Zero))}
+	case "distinctObjects": // the two slices live in different backing arrays (or one of them is empty)
+		a, okA := c.eval(n.Args[0]).(VSlice)
+		b, okB := c.eval(n.Args[1]).(VSlice)
+		if !okA || !okB {
+			c.fail("distinctObjects needs two slices")
+		}
+		return VBool{Or(Ne(a.Obj, b.Obj), Eq(a.Cap, Zero), Eq(b.Cap, Zero))}
 	case "present":
 		m := c.eval(n.Args[0]).(VMap)
 		_, p := c.mapGet(m, c.eval(n.Args[1]))
@@ -773,11 +832,11 @@ func (c *specCtx) evalCall(n *ECall) Val {
 func (c *specCtx) byteReader(v Val) (func(i *Term) *Term, *Term) {
 	switch s := v.(type) {
 	case VSlice:
-		h := c.heap(elemHeapName(s.Elem, ""), HeapI)
-		return func(i *Term) *Term { return Select(Select(h, s.Obj), Add(s.Off, i)) }, s.Len
+		row := c.heapRow(elemHeapName(s.Elem, ""), HeapI, s.Obj)
+		return func(i *Term) *Term { return Select(row, Add(s.Off, i)) }, s.Len
 	case VString:
-		h := c.heap(strHeap, HeapI)
-		return func(i *Term) *Term { return Select(Select(h, s.Obj), Add(s.Off, i)) }, s.Len
+		row := c.heapRow(strHeap, HeapI, s.Obj)
+		return func(i *Term) *Term { return Select(row, Add(s.Off, i)) }, s.Len
 	}
 	c.fail("bytes expected, got %T", v)
 	return nil, nil
@@ -787,11 +846,11 @@ func (c *specCtx) byteReader(v Val) (func(i *Term) *Term, *Term) {
 func (c *specCtx) byteReaderAbs(v Val) (func(i *Term) *Term, *Term, *Term) {
 	switch s := v.(type) {
 	case VSlice:
-		h := c.heap(elemHeapName(s.Elem, ""), HeapI)
-		return func(i *Term) *Term { return Select(Select(h, s.Obj), i) }, s.Off, s.Len
+		row := c.heapRow(elemHeapName(s.Elem, ""), HeapI, s.Obj)
+		return func(i *Term) *Term { return Select(row, i) }, s.Off, s.Len
 	case VString:
-		h := c.heap(strHeap, HeapI)
-		return func(i *Term) *Term { return Select(Select(h, s.Obj), i) }, s.Off, s.Len
+		row := c.heapRow(strHeap, HeapI, s.Obj)
+		return func(i *Term) *Term { return Select(row, i) }, s.Off, s.Len
 	}
 	c.fail("bytes expected, got %T", v)
 	return nil, nil, nil
@@ -861,19 +920,69 @@ func (c *specCtx) applySpecVals(sf *SpecFunc, vals []Val) Val {
 		}
 		return v
 	}
+	objOf := func(v Val) *Term {
+		switch x := v.(type) {
+		case VSlice:
+			return x.Obj
+		case VString:
+			return x.Obj
+		case VMap:
+			return x.Ref
+		}
+		return nil
+	}
 	ri := c.e.specUF[sf.Name]
 	if ri == nil {
-		ri = &recInfo{computing: true, ret: retSort(sf.Ret), depSorts: map[string]*Sort{}}
+		ri = &recInfo{computing: true, ret: retSort(sf.Ret)}
 		c.e.specUF[sf.Name] = ri
 		rec := c.bodyCtx(sf, vals)
 		rec.record = map[string]*Sort{}
+		rec.recRows = map[string]rowRec{}
 		rec.noUnfold = true
 		rec.eval(sf.Body)
-		for k, s := range rec.record {
-			ri.deps = append(ri.deps, k)
-			ri.depSorts[k] = s
+		whole := map[string]*Sort{}
+		for k, srt := range rec.record {
+			whole[k] = srt
 		}
-		sort.Strings(ri.deps)
+		seen := map[string]bool{}
+		for k, rr := range rec.recRows {
+			name := k[:strings.Index(k, "|")]
+			pidx := -1
+			for i, v := range vals {
+				if o := objOf(v); o != nil && o.Key() == rr.obj.Key() {
+					pidx = i
+				}
+			}
+			if pidx < 0 {
+				whole[name] = rr.sort // read through something that is not a parameter: depend on the whole heap
+				continue
+			}
+			dk := fmt.Sprintf("%s|%d", name, pidx)
+			if !seen[dk] {
+				seen[dk] = true
+				ri.deps = append(ri.deps, recDep{name, rr.sort, pidx})
+			}
+		}
+		for k, srt := range whole {
+			ri.deps = append(ri.deps, recDep{k, srt, -1})
+		}
+		sort.Slice(ri.deps, func(i, j int) bool {
+			if ri.deps[i].name != ri.deps[j].name {
+				return ri.deps[i].name < ri.deps[j].name
+			}
+			return ri.deps[i].pidx < ri.deps[j].pidx
+		})
+		// a whole-heap dependency subsumes row dependencies on the same heap
+		var ds []recDep
+		for _, d := range ri.deps {
+			if d.pidx >= 0 {
+				if _, w := whole[d.name]; w {
+					continue
+				}
+			}
+			ds = append(ds, d)
+		}
+		ri.deps = ds
 		ri.computing = false
 	}
 	if ri.computing {
@@ -884,7 +993,15 @@ func (c *specCtx) applySpecVals(sf *SpecFunc, vals []Val) Val {
 	}
 	var targs []*Term
 	for _, d := range ri.deps {
-		targs = append(targs, c.heap(d, ri.depSorts[d]))
+		if d.pidx >= 0 {
+			o := objOf(vals[d.pidx])
+			if o == nil {
+				c.fail("rec spec function %s: argument %d has no object", sf.Name, d.pidx)
+			}
+			targs = append(targs, c.heapRow(d.name, d.sort, o))
+		} else {
+			targs = append(targs, c.heap(d.name, d.sort))
+		}
 	}
 	for _, v := range vals {
 		targs = append(targs, Flatten(v)...)
@@ -1037,6 +1154,9 @@ func (c *specCtx) contractOf(key string, args []Expr, preOnly bool) Val {
 	sub.iters = c.e.freshIters(c.st, key)
 	for i, a := range args {
 		sub.env[names[i]] = c.eval(a)
+	}
+	for _, w := range spec.Witness {
+		sub.env[w.Name] = VInt{c.e.fresh(key+".w_"+w.Name, IntS)}
 	}
 	var cs []*Term
 	if preOnly {
